@@ -467,7 +467,7 @@ def observe_fit(fit, m, mode, ref, tol, ctx, maps=MAPS, prefix="fit", maps_out=N
             if not good:
                 failed.add(name)
                 # discriminate the root cause: the chi-squared map returned under this name
-                if _within(got, ref["chi_squared_map"], tol["chi_squared_map"]):
+                if np.any(ref["chi_squared_map"] != 0.0) and _within(got, ref["chi_squared_map"], tol["chi_squared_map"]):
                     ctx.fail("fit/residual_flux_fraction_map/returns-chi-squared-map",
                              "%s mode: residual_flux_fraction_map equals the chi-squared map %s, not residual/data %s" % (
                                  mode, _s(got), _s(ref[name])))
@@ -828,8 +828,11 @@ def _normal_equations(case, sc, eps):
             f[np.arange(start, start + k), np.arange(start, start + k)] += eps
         start += k
     h = block_diag(*[np.asarray(o.regularization_matrix, dtype=float) for o in sc.objs])
-    scale_d = float((np.abs(b).T @ np.abs(d / n ** 2)).max()) + 1e-300
-    scale_f = float((np.abs(bn).T @ np.abs(bn)).max()) + eps
+    # rounding scales: magnitude of the summed terms (PSF weights x mapping entries may cancel exactly, e.g.
+    # 0.039*0.74 - 0.026*1.11, leaving only rounding noise in B)
+    babs = np.abs(a_mask) @ np.abs(np.hstack(mats))
+    scale_d = float((babs.T @ np.abs(d / n ** 2)).max()) + 1e-300
+    scale_f = float(((babs / n[:, None]).T @ (babs / n[:, None])).max()) + eps
     return dvec, f, h, scale_d, scale_f
 
 
@@ -1026,9 +1029,9 @@ def body_scale(case, ctx):
 
 
 SUBCHECKS = [
-    SubCheck("scale", body_scale, strategy=scale_cases(), examples={"quick": 1600, "thorough": 24000}, shards={"quick": 16, "thorough": 16}),
-    SubCheck("multi", body_multi, strategy=multi_cases(), examples={"quick": 640, "thorough": 8000}, shards={"quick": 16, "thorough": 16}),
-    SubCheck("fit", body_fit, strategy=fit_cases(), examples={"quick": 2400, "thorough": 48000}, shards={"quick": 16, "thorough": 16}),
-    SubCheck("util", body_util, strategy=util_cases(), examples={"quick": 2000, "thorough": 32000}, shards={"quick": 16, "thorough": 16}),
-    SubCheck("evidence", body_evidence, strategy=evidence_cases(), examples={"quick": 2000, "thorough": 32000}, shards={"quick": 16, "thorough": 16}),
+    SubCheck("scale", body_scale, strategy=scale_cases(), examples={"quick": 3200, "thorough": 24000}, shards={"quick": 16, "thorough": 16}),
+    SubCheck("multi", body_multi, strategy=multi_cases(), examples={"quick": 1600, "thorough": 8000}, shards={"quick": 16, "thorough": 16}),
+    SubCheck("fit", body_fit, strategy=fit_cases(), examples={"quick": 3200, "thorough": 48000}, shards={"quick": 16, "thorough": 16}),
+    SubCheck("util", body_util, strategy=util_cases(), examples={"quick": 2400, "thorough": 32000}, shards={"quick": 16, "thorough": 16}),
+    SubCheck("evidence", body_evidence, strategy=evidence_cases(), examples={"quick": 2400, "thorough": 32000}, shards={"quick": 16, "thorough": 16}),
 ]
